@@ -8,7 +8,12 @@ deterministic stride through the rest.
 import itertools
 
 
+DEEP = 1          # set to 3 by the driver for the thorough tier: pick() selects three times as many shapes, from a universe that includes order 4
+
+
 def all_shapes(orders=(1, 2, 3), dims=(1, 2), ranks=(1, 2), vector=False, square=False):
+    if DEEP > 1 and tuple(orders) == (1, 2, 3):
+        orders = (1, 2, 3, 4)
     out = []
     for d in orders:
         for rows in itertools.product(dims, repeat=d):
@@ -26,6 +31,7 @@ def is_edge(s):
 
 def pick(shapes, n, always=lambda s: False):
     """deterministic subset of size ~n: everything `always` selects (capped at n) + an even stride"""
+    n = n * DEEP
     must = [s for s in shapes if always(s)]
     rest = [s for s in shapes if not always(s)]
     if len(must) > n:
